@@ -511,6 +511,8 @@ func (ev *Evaluator) call(e *Expr) Val {
 		return tzero()
 	case "nil":
 		return bnil()
+	case "isnil":
+		return m.isNilTerm(args()[0])
 	case "len":
 		return m.lenOf(args()[0])
 	case "amt":
